@@ -112,6 +112,35 @@ func rulePileMerge(c *Ctx, rule string) {
 		return false
 	}
 	collected, imagesMoved, startUpd, endUpd := false, false, false, false
+	endFirstOnly := false
+	// firstOnly: the block runs only under a flag variable (a boolean held in
+	// a captured or local variable) or for the first element of a list: the
+	// idiom of "the first match", right for the start (matches arrive in
+	// ascending order of start), wrong for the end.
+	firstOnly := func(b *ssa.BasicBlock) bool {
+		for _, f := range branchesAtAny(b) {
+			v := f.cond
+			if u, ok := v.(*ssa.UnOp); ok && u.Op == token.NOT {
+				v = u.X
+			}
+			if u, ok := v.(*ssa.UnOp); ok && u.Op == token.MUL {
+				switch u.X.(type) {
+				case *ssa.FreeVar, *ssa.Alloc:
+					if bt, ok := u.Type().Underlying().(*types.Basic); ok && bt.Kind() == types.Bool {
+						return true
+					}
+				}
+			}
+			if bo, ok := v.(*ssa.BinOp); ok && (bo.Op == token.EQL || bo.Op == token.NEQ) {
+				if k, ok := bo.Y.(*ssa.Const); ok && k.Value != nil && k.Int64() == 0 {
+					if _, ok := bo.X.(*ssa.Phi); ok {
+						return true
+					}
+				}
+			}
+		}
+		return false
+	}
 	scan := []*ssa.Function{cb}
 	if !viaGet {
 		for _, b := range cb.Blocks {
@@ -235,6 +264,9 @@ func rulePileMerge(c *Ctx, rule string) {
 					}
 					if dep && name == "end" {
 						endUpd = true
+						if firstOnly(b) {
+							endFirstOnly = true
+						}
 					}
 				}
 			}
@@ -258,6 +290,7 @@ func rulePileMerge(c *Ctx, rule string) {
 	}
 	verdict(collected, "matches-collected", "every matched interval is appended to the list of intervals to replace", "a matched interval is not recorded for replacement: it stays in the tree next to the merged interval, so its features appear in two piles", cb.Pos())
 	verdict(imagesMoved, "images-carried-over", "the images of every matched interval are appended to the merged interval", "the images of the intervals that the merged interval replaces are not carried over: those features belong to no pile afterwards", cb.Pos())
+	verdict(!endFirstOnly, "end-from-every-match", "the end of the merged interval is extended from every matched interval", "the end of the merged interval is extended only from the first matched interval (the update sits under the first-match flag): matches arrive in ascending order of start, not of end, so a later match that reaches further right is absorbed without the pile covering it", cb.Pos())
 	verdict(startUpd && endUpd, "span-is-union", "both ends of the merged interval are extended from the matched intervals", "the merged interval's start or end is not extended from the intervals it absorbs: the pile does not cover all its members", cb.Pos())
 	// deletion of everything collected, in a loop over the collected list, on the queried tree
 	delOK := false
